@@ -223,6 +223,9 @@ def _closure(b, bi, nbps, off):
     def need(table, idx, what):
         if idx >= size[table]:
             raise SchemaError('index', 'block[%d]: %s = %d but table %s has %d entries' % (bi, what, idx, table, size[table]), off)
+    if 'earliest' not in b['preamble'] and any('toff' in x for x in b.get('qr', []) + b.get('mm', [])):
+        # RFC 8618 7.3.1: earliest-time is mandatory unless all items of the block omit their time offset
+        raise SchemaError('mandatory', 'block[%d]: BlockPreamble lacks earliest-time although items carry time offsets' % bi, off)
     bpi = b['preamble'].get('bpi', 0)
     if bpi >= nbps:
         raise SchemaError('index', 'block[%d]: block_parameters_index %d but preamble has %d sets' % (bi, bpi, nbps), off)
